@@ -427,6 +427,7 @@ class Controller(object):
         xopt = self.model.xopt()
         dirns = random_directions_within_bounds(num_steps, step_length, self.model.sl - xopt, self.model.su - xopt)
         # Make direction orthogonal
+        random_dirns = dirns.copy()
         Y = self.model.xpt_directions(include_kopt=False).T  # columns are the current set of directions
         Q, R = LA.qr(Y, mode='economic')  # columns of Q are orthonormal basis for current set of directions
         for k in range(Q.shape[1]):
@@ -436,6 +437,8 @@ class Controller(object):
 
         # Evaluate the points
         for j in range(num_steps):
+            if LA.norm(dirns[j, :]) == 0.0:
+                dirns[j, :] = random_dirns[j, :]  # current directions already span the whole space: keep the random direction
             xnew = self.model.xopt() + (step_length / LA.norm(dirns[j, :])) * dirns[j, :]
             x = self.model.as_absolute_coordinates(xnew)
             rvec_list, obj_list, num_samples_run, exit_info = self.evaluate_objective(x, number_of_samples, params)
@@ -474,9 +477,12 @@ class Controller(object):
         # Make direction orthogonal
         Y = self.model.xpt_directions(include_kopt=False).T  # columns are the current set of directions
         Q, R = LA.qr(Y, mode='economic')  # columns of Q are orthonormal basis for current set of directions
+        random_dirn = dirn.copy()
         for k in range(Q.shape[1]):
             qk = Q[:, k]
             dirn = dirn - np.dot(dirn, qk) * qk
+        if LA.norm(dirn) == 0.0:
+            dirn = random_dirn  # current directions already span the whole space: keep the random direction
 
         return dirn * (step_length / LA.norm(dirn))
 
